@@ -579,6 +579,8 @@ pub enum Suspension {
 pub enum OtherOp {
     Send(Entry),
     Pending,
+    /// `flush(no timeout)`: returns once the consumers have taken what is buffered -- a suspended send is not buffered
+    Flush,
 }
 
 #[derive(Clone, Debug, Serialize, Deserialize)]
@@ -632,6 +634,11 @@ fn run_other_op(ch: &ChanArc, shared: &Arc<HLock<Shared>>, kind_name: &'static s
         OtherOp::Pending => {
             ctx::op_mark(ctx::intern(format!("{}:pending_items_count[{}]", kind_name, tag)));
             let _ = ch.pending();
+            ctx::op_mark("");
+        }
+        OtherOp::Flush => {
+            ctx::op_mark(ctx::intern(format!("{}:flush[{}]", kind_name, tag)));
+            let _ = harness::block_on_sim(ch.flush(Duration::ZERO), |_| true);
             ctx::op_mark("");
         }
     }
@@ -954,7 +961,7 @@ impl Scenario for Suspend {
             let mut v = vec![];
             for _ in 0..n {
                 if rng.chance(1, 5) || *budget == 0 {
-                    v.push(OtherOp::Pending);
+                    v.push(if rng.chance(1, 3) { OtherOp::Flush } else { OtherOp::Pending });
                 } else {
                     *budget -= 1;
                     let e = loop {
